@@ -20,7 +20,8 @@ from pathlib import Path
 from typing import Any, Optional
 
 VERIF = Path(__file__).resolve().parent.parent
-EVIDENCE_DIR = VERIF / "evidence"
+# scratch runs against a copy of the tree (tools/seed_matrix_par.sh) write their evidence elsewhere
+EVIDENCE_DIR = Path(os.environ.get("SA_EVIDENCE_DIR") or VERIF / "evidence")
 KNOWN_FINDINGS = VERIF / "known_findings.json"
 
 OK, VIOLATION, UNDECIDED = "ok", "violation", "undecided"
